@@ -309,7 +309,7 @@ def gen_other(rng):
         return ""
     lines = []
     for _ in range(rng.randint(1, 4)):
-        s = gen_text(rng, rng.randint(1, 20))
+        s = gen_text(rng, rng.randint(1, 20) if rng.random() < 0.9 else rng.choice([254, 255, 256, 300]))
         if s.startswith("~"):
             s = "x" + s
         lines.append(s)
